@@ -190,7 +190,7 @@ func clientLine(g *core.Stream) (line string, captcha string) {
 	case r < 46:
 		return "KICK " + ch() + " " + pickNick(g) + g.Pick([]string{"", " :bye", " :"}), ""
 	case r < 58:
-		switch g.Intn(10) {
+		switch g.Intn(11) {
 		case 0:
 			return "MODE " + ch(), ""
 		case 1, 2:
@@ -203,6 +203,9 @@ func clientLine(g *core.Stream) (line string, captcha string) {
 			return "MODE " + ch() + " " + g.Pick([]string{"+b", "-b", "+b", "b"}) + g.Pick([]string{"", " " + pickMask(g)}), ""
 		case 8:
 			return "MODE " + pickNick(g) + g.Pick([]string{"", " +i", " -i", " +G", " -G", " +o", " +r"}), ""
+		case 9:
+			// several modes in one command, the last one a bare ban-list query
+			return "MODE " + ch() + " " + g.Pick([]string{"+ob", "-ob", "+ib", "+tb", "-tb", "+kb", "+bb", "+nb"}) + " " + g.Pick([]string{pickNick(g), g.Pick(e1Keys)}), ""
 		default:
 			return "MODE " + ch() + " +ok-b " + pickNick(g) + " " + g.Pick(e1Keys) + " " + pickMask(g), ""
 		}
@@ -435,9 +438,29 @@ func (e1Engine) Generate(seed uint64, prop, tier string) (json.RawMessage, error
 			add(e1Step{K: "line", S: b, Data: g.Pick([]string{"TOPIC " + lc + " :taken over", "TOPIC " + lc + " :", "MODE " + lc + " +i", "MODE " + lc + " -k k1", "MODE " + lc + " +o {nickb}", "KICK " + lc + " {nicka} :revenge", "INVITE " + pickNick(g) + " " + lc, "JOIN " + lc, "JOIN " + lc + " k1", "PRIVMSG " + lc + " :still here?", "MODE " + lc + " +b x!*@*"})})
 		}
 	}
+	// snippet: an invitation is issued, the channel empties and is re-created invite-only
+	staleInvite := func() {
+		if nsess < 2 {
+			return
+		}
+		a, b := g.Intn(nsess), g.Intn(nsess)
+		if a == b || a == svc || b == svc {
+			return
+		}
+		c := "#club" + fmt.Sprint(g.Intn(2))
+		add(e1Step{K: "line", S: a, Data: "JOIN " + c})
+		add(e1Step{K: "line", S: b, Data: "NAMES"}) // makes b the "previous" session for {nickb}
+		add(e1Step{K: "line", S: a, Data: "INVITE {nickb} " + c})
+		add(e1Step{K: "line", S: a, Data: "PART " + c})
+		add(e1Step{K: "line", S: a, Data: "JOIN " + c})
+		add(e1Step{K: "line", S: a, Data: "MODE " + c + " +i"})
+		add(e1Step{K: "line", S: b, Data: "JOIN " + c})
+	}
 	for i := 0; i < n; i++ {
 		r := g.Intn(1000)
 		switch {
+		case r < 8:
+			staleInvite()
 		case r < 40:
 			lostRight()
 		case r < 560:
@@ -505,7 +528,11 @@ func (e1Engine) Generate(seed uint64, prop, tier string) (json.RawMessage, error
 			}
 			add(st)
 		case r < 960:
-			add(e1Step{K: "restart", N: g.Range(1, sc.Nodes-1)})
+			if sc.JSONEnc && g.Chance(1, 2) {
+				add(e1Step{K: "upgrade", N: g.Range(1, sc.Nodes-1)})
+			} else {
+				add(e1Step{K: "restart", N: g.Range(1, sc.Nodes-1)})
+			}
 		case r < 968:
 			add(e1Step{K: "install", N: g.Range(1, sc.Nodes-1), From: g.Range(1, sc.Nodes-1)})
 		case r < 975:
